@@ -51,7 +51,17 @@ type SliceVal struct {
 	Nil           bool
 }
 
-type StrVal struct{ B []*Term }
+type StrVal struct {
+	B []*Term
+	// FF: set on the opaque text that the contract model of strconv.FormatFloat(f, 'f', prec, 64)
+	// returns for a symbolic f; strconv.ParseFloat recognises it (models.go)
+	FF *floatText
+}
+
+type floatText struct {
+	F    *Term
+	Prec int
+}
 
 type MapVal struct {
 	Keys []Value
